@@ -151,11 +151,8 @@ func (c *Channel) Deliver(out, x []byte) ([]byte, error) {
 			if err != nil {
 				continue
 			}
-			if isApp {
-				appData = out
-				return nil, nil
-			}
 			// if the session became ready, then make it the current and notify.
+			// An initiator session also becomes ready through application data (RespDone lost).
 			if !readyBefore && s.IsReady() {
 				if i != 2 {
 					panic(i)
@@ -163,6 +160,10 @@ func (c *Channel) Deliver(out, x []byte) ([]byte, error) {
 				if err := c.onReadySession(now); err != nil {
 					return nil, err
 				}
+			}
+			if isApp {
+				appData = out
+				return nil, nil
 			}
 			if len(out) == 0 {
 				continue
